@@ -10,6 +10,7 @@ type StackN<const N: usize, const S: usize> = any_vec::mem::StackN<N, S>;
 
 #[cfg(feature = "lib_alloc")]
 anyvec_pbt::configs! {
+    Cc0_Multi:    Cc0,    Multi, dyn Cloneable, G_LAYOUT;
     Tr16_FixedA:   Tr16,   FixedB,          dyn Cloneable, G_ALIGN;
     Pl16_StackA:   Pl16,   Stack<48>,       dyn None,      G_ALIGN;
     Tr2_Multi:    Tr2,    Multi, dyn Cloneable, G_LAYOUT;
